@@ -724,6 +724,8 @@ class Check:
             self.stats[k] += stats.get(k, 0)
         for name, res in sorted(results.items()):
             self.nruns += 1
+            fam = self.extra.setdefault("runs_by_family", {})
+            fam[name.split("-")[0]] = fam.get(name.split("-")[0], 0) + 1
             self.events += res["summary"].get("events", 0)
             sc = res["scenario"]
             if res["accepted"]:
@@ -1268,7 +1270,7 @@ def check_C07(chk):
     for s_ in gr:
         s_["sched_sweep"] = 40 if chk.tier == "quick" else 200
     scens += gr
-    scens += fam_exhaustive_par(chk.tier, "c07p", seed=chk.seed, sweep=6 if chk.tier == "quick" else 40)
+    scens += fam_exhaustive_par(chk.tier, "c07p", seed=chk.seed, sweep=3 if chk.tier == "quick" else 10)
     scens += fam_regress()
     res, st = Q.run_batch(scens, chk.wd, known=chk.known_tags(), par=14)
     chk.consume(res, st, props=("C07", "PANIC"))
@@ -1862,9 +1864,16 @@ def check_C20(chk):
             geo = dict(cb=rng.choice([9, 12, 16]), ro=4, bsb=9, vclusters=24, params={})
             if geo["cb"] == 16:
                 geo["bsb"] = 12
+            if c["shape"] == "plain":
+                # an L1 table that fills its cluster exactly (64 entries of 512-byte clusters), the leaked
+                # clusters directly behind it: where rounding the table size up is easy to get wrong
+                geo = dict(cb=9, ro=4, bsb=9, vclusters=4096, params={})
             kinds = {"plain": (), "data": ("data",), "zero_prealloc": ("zero_prealloc", "data"), "compressed": ("comp", "data")}[c["shape"]]
             im = S.image_shaped(rng, geo, 1, frac=0.5 if kinds else 0.0, kinds=kinds or ("data",))
             im["desc"]["leaks"] = c["leaks"]
+            if c["shape"] == "plain":
+                im["desc"]["shuffle"] = 0          # placement in order: the leaks follow the L1 table
+                im["desc"]["holes"] = 0
             # Qcow2Dev::check() on the same image (flush first: file == device state)
             sc = S.mk(f"c20c-{c['shape']}-{c['leaks']}", geo, [im], [{"op": "flush"}, {"op": "check"}])
             sc["expect_builder_leaks"] = c["leaks"]
